@@ -389,3 +389,12 @@ Proof.
   - apply matches_pattern_rec; [exact is_hexb_spec|auto].
   - apply matches_pattern_rec; [exact is_hex_upperb_spec|exact is_hex_upper_hex].
 Qed.
+
+(** Clause 2 stated on [matches_pattern] itself *)
+Corollary unmarshal_string_pattern s :
+  matches_pattern s ->
+  exists idp tail, s = idp ++ 35 :: tail /\ forall dst, unmarshal_string s dst = (Ok, frame_written idp tail).
+Proof.
+  intros (idp & tail & -> & Hi & Ht). exists idp, tail. split; [reflexivity|].
+  intros dst. apply unmarshal_string_accepts; assumption.
+Qed.
